@@ -476,7 +476,11 @@ def run_buffered(ctx, case, multi_handle):
                 cm = stack.pop()
                 how = lrng.choice(["normal", "normal", "exception", "base"])
                 if how == "normal":
-                    cm.__exit__(None, None, None)
+                    try:
+                        cm.__exit__(None, None, None)
+                    except BaseException as e:  # noqa
+                        e._vf_on_exit = True
+                        raise
                 else:
                     exc = ValueError("leave") if how == "exception" else KeyboardInterrupt("leave")
                     ctx.count("buffered_block_left_by_" + how)
@@ -484,6 +488,7 @@ def run_buffered(ctx, case, multi_handle):
                         cm.__exit__(type(exc), exc, None)
                     except BaseException as e:  # noqa: a generator-based context manager re-raises what it was thrown
                         if e is not exc:
+                            e._vf_on_exit = True
                             raise
                 if not stack:
                     used_in_block.clear()
@@ -536,7 +541,9 @@ def run_buffered(ctx, case, multi_handle):
                         leave()
                     except Exception:
                         stack.clear()
-                problems.append(("raised", type(e).__name__, str(e)[:200]))
+                # an exception out of a block's exit is the buffering layer speaking; one out of an operation may just be
+                # the operation meeting data that an earlier (silent) divergence left behind
+                problems.append(("raised-on-exit" if getattr(e, "_vf_on_exit", False) else "raised", type(e).__name__, str(e)[:200]))
             results[regime] = (D.tree(), [copy.deepcopy(m) for m in D.model], problems, D)
     finally:
         signac.set_buffer_capacity(old_cap)
@@ -562,8 +569,9 @@ def run_buffered(ctx, case, multi_handle):
             key = "buffered-run-differs-from-unbuffered"
             if multi_handle:
                 key = "buffered-multi-handle-lost-update"
-                if any(b[0] == "raised" for b in bad):
-                    # the known lost-update mechanism is silent; an exception out of the block is something else
+                if any(b[0] == "raised-on-exit" for b in bad):
+                    # the known lost-update mechanism is silent (at most a later operation trips over the lost data);
+                    # an exception out of the block's exit is something else
                     key = "buffered-multi-handle-block-raises"
             ctx.violation(key, f"buffered regime '{regime}' leaves different documents than the unbuffered run",
                           {"regime": regime, "capacity": case.get("capacity"), "problems": bad[:4]})
